@@ -25,7 +25,9 @@ KnownDefects == {"ed_no_verify_key",   \* Ed25519Key(filename=..)/(file_obj=..) 
                  "ecdsa_negative",     \* encode_dss_signature raises ValueError for a negative r or s
                  "alg_not_text"}       \* Message.get_text raises UnicodeDecodeError on a non-UTF-8 name
 Mutations    == {"mut_skip_alg_check", "mut_ignore_data", "mut_ignore_hash",
-                 "mut_strip_zeros"}    \* RSA verifier strips all leading zero octets and re-pads (seeded change C35a)
+                 "mut_strip_zeros",    \* RSA verifier strips all leading zero octets and re-pads (seeded change C35a)
+                 "mut_concat_verify"}  \* Ed25519 verifier checks blob || data as one string, so the boundary between
+                                       \* signature and data is "octet 64 of the concatenation" (seeded change C35b)
 ASSUME Defects \subseteq KnownDefects \cup Mutations
 
 (* ------------------------------ key objects ------------------------------ *)
@@ -103,6 +105,14 @@ Tampers(t, a) == {T(c) : c \in {"none", "alg_unknown", "alg_not_text", "blob_gar
                  \cup {T(c) : c \in Whys(t)}
                  \cup {TAlg(n) : n \in (FamilyNames(t) \cup (ForeignNames \cap AllNames)) \ {a}}
                  \cup (IF HasAlias(t) THEN {T("blob_alias")} ELSE {})
+                 \cup {T("shift_to_sig"), T("shift_to_data")}
+\* COORDINATED tampers: octets are moved across the boundary between the signature blob and the verified data.
+\*   shift_to_sig : blob = S || M[..k],  data = M[k+1..]   ("d1_rest")
+\*   shift_to_data: blob = S[..n-k],     data = S[n-k+1..] || M   ("tail_d1")
+\* Both sides differ from what was signed (other data AND an altered blob), each in step with the other.
+DataFor(tm) == CASE tm.cls = "shift_to_sig" -> {"d1_rest"} [] tm.cls = "shift_to_data" -> {"tail_d1"}
+                 [] OTHER -> {"d1", "d2"}
+DataTokens  == {"d1", "d2", "d1_rest", "tail_d1"}
 \* what a cut of the byte string can leave behind (the reader pads short reads with zeros or stops early)
 TruncBlobs(t) == {Garbage, Malformed("blob_empty")}
                  \cup (IF Family(t) = "ecdsa" THEN {Malformed("inner_truncated"), Malformed("inner_zero")}
@@ -116,6 +126,11 @@ Refine(tm, w, t) ==
     [] tm.cls = "blob_garbage" -> {[w EXCEPT !.blob = Garbage]}
     [] tm.cls = "blob_alias"   -> {[w EXCEPT !.blob = AliasOf(w.blob)]}
     \* (keeps the value it was made from, so that a verifier that "normalises" it can be modelled)
+    \* S || M[..k]: over-long for RSA / Ed25519 (keeps the value it was made from, see mut_concat_verify); for ECDSA
+    \* the extra octets follow s inside the blob, which leaves the value (r, s) as it was
+    [] tm.cls = "shift_to_sig"  -> {[w EXCEPT !.blob = IF Family(t) = "ecdsa" THEN AliasOf(w.blob)
+                                                       ELSE [w.blob EXCEPT !.k = "malformed", !.why = "blob_long_by_data"]]}
+    [] tm.cls = "shift_to_data" -> {[w EXCEPT !.blob = Malformed(IF Family(t) = "ecdsa" THEN "inner_truncated" ELSE "blob_short")]}
     [] tm.cls = "blob_zero_prepended" -> {[w EXCEPT !.blob = [w.blob EXCEPT !.k = "malformed", !.why = "blob_zero_prepended"]]}
     [] tm.cls = "trunc"        -> {[w EXCEPT !.alg = UnknownF]} \cup {[w EXCEPT !.blob = b] : b \in TruncBlobs(t)}
     \* a corrupted length prefix re-frames the fields: anything a cut can do, a longer blob, or (length
@@ -143,21 +158,23 @@ S_UseVerifyingKey(v) == IF v.type = "ed25519" /\ v.prov \in FileProvs /\ "ed_no_
                         THEN "AttributeError" ELSE "go"
 Normalised(v, w) == /\ "mut_strip_zeros" \in Defects /\ Family(v.type) = "rsa"
                     /\ w.blob.k = "malformed" /\ w.blob.why = "blob_zero_prepended"
-S_DecodeBlob(v, w) ==
-  IF w.blob.k # "malformed" \/ Normalised(v, w) THEN "go"
+Concatenated(v, w, d) == /\ "mut_concat_verify" \in Defects /\ Family(v.type) = "ed25519"
+                         /\ w.blob.k = "malformed" /\ w.blob.why = "blob_long_by_data" /\ d = "d1_rest"
+S_DecodeBlob(v, w, d) ==
+  IF w.blob.k # "malformed" \/ Normalised(v, w) \/ Concatenated(v, w, d) THEN "go"
   ELSE IF Family(v.type) = "ed25519" /\ "ed_sig_length" \in Defects THEN "ValueError"
   ELSE IF Family(v.type) = "ecdsa" /\ w.blob.why = "inner_negative" /\ "ecdsa_negative" \in Defects THEN "ValueError"
   ELSE "false"
 S_Crypto(v, w, d) ==
-  IF /\ (w.blob.k \in {"sig", "alias"} \/ Normalised(v, w))
+  IF /\ (w.blob.k \in {"sig", "alias"} \/ Normalised(v, w) \/ Concatenated(v, w, d))
      /\ w.blob.type = v.type /\ w.blob.mat = v.mat
      /\ (w.blob.hash = UseHash(v, w) \/ "mut_ignore_hash" \in Defects)
-     /\ (w.blob.data = d \/ "mut_ignore_data" \in Defects)
+     /\ (w.blob.data = d \/ "mut_ignore_data" \in Defects \/ Concatenated(v, w, d))
   THEN "true" ELSE "false"
 First(seq4) == IF seq4[1] # "go" THEN seq4[1] ELSE IF seq4[2] # "go" THEN seq4[2]
                ELSE IF seq4[3] # "go" THEN seq4[3] ELSE IF seq4[4] # "go" THEN seq4[4] ELSE seq4[5]
 \* the whole of verify_ssh_sig as a function
-Outcome(v, w, d) == First(<<S_GetAlgText(w), S_CheckAlg(v, w), S_UseVerifyingKey(v), S_DecodeBlob(v, w),
+Outcome(v, w, d) == First(<<S_GetAlgText(w), S_CheckAlg(v, w), S_UseVerifyingKey(v), S_DecodeBlob(v, w, d),
                             S_Crypto(v, w, d)>>)
 
 (* ----------------------------- state machine ----------------------------- *)
@@ -187,7 +204,7 @@ TamperWire(tm) ==
   /\ UNCHANGED <<signer, verifier, alg, data, result>>
 PresentData(d) ==
   /\ pc = "wire" /\ pc' = "v_alg"
-  /\ d \in {"d1", "d2"}
+  /\ d \in DataFor(tamper)
   /\ (verifier.type # signer.type => d = "d1")
   /\ data' = d
   /\ UNCHANGED <<signer, verifier, alg, tamper, wire, result>>
@@ -198,14 +215,14 @@ Decide(here, next, ans) ==
 V_GetAlgText      == Decide("v_alg", "v_check", S_GetAlgText(wire))
 V_CheckAlgorithm  == Decide("v_check", "v_key", S_CheckAlg(verifier, wire))
 V_UseVerifyingKey == Decide("v_key", "v_blob", S_UseVerifyingKey(verifier))
-V_DecodeBlob      == Decide("v_blob", "v_crypto", S_DecodeBlob(verifier, wire))
+V_DecodeBlob      == Decide("v_blob", "v_crypto", S_DecodeBlob(verifier, wire, data))
 V_CryptoVerify    == Decide("v_crypto", "done", S_Crypto(verifier, wire, data))
 
 \* (the pc test comes first so that TLC does not enumerate the quantifiers of disabled actions)
 Next == \/ pc = "start"  /\ \E s \in Signers, v \in Keys : ObtainKeys(s, v)
         \/ pc = "keys"   /\ \E a \in SignAlgs(signer.type) : SignData(a)
         \/ pc = "signed" /\ \E tm \in Tampers(signer.type, alg) : TamperWire(tm)
-        \/ pc = "wire"   /\ \E d \in {"d1", "d2"} : PresentData(d)
+        \/ pc = "wire"   /\ \E d \in DataTokens : PresentData(d)
         \/ V_GetAlgText \/ V_CheckAlgorithm \/ V_UseVerifyingKey \/ V_DecodeBlob \/ V_CryptoVerify
 Spec == Init /\ [][Next]_vars
 
